@@ -751,6 +751,7 @@ func (s *Server) pushClient() {
 	s.log("pushClient:ok t%d", data.mTrackedTimeSum)
 
 	s.storeLastPush(data)
+	verifPoint(s, "push-done")
 }
 
 // call via by pushClient
@@ -950,6 +951,7 @@ func (s *Server) RemoteAdd(
 	if s.Mach.Not1(ssS.Start) {
 		return am.ErrCanceled
 	}
+	defer verifPoint(s, "reply-computed")
 	s.lockExport.Lock()
 	defer s.lockExport.Unlock()
 
@@ -1016,6 +1018,7 @@ func (s *Server) RemoteRemove(
 	if s.Mach.Not1(ssS.Start) {
 		return am.ErrCanceled
 	}
+	defer verifPoint(s, "reply-computed")
 	s.lockExport.Lock()
 	defer s.lockExport.Unlock()
 
@@ -1047,6 +1050,7 @@ func (s *Server) RemoteSet(
 	if s.Mach.Not1(ssS.Start) {
 		return am.ErrCanceled
 	}
+	defer verifPoint(s, "reply-computed")
 	s.lockExport.Lock()
 	defer s.lockExport.Unlock()
 
